@@ -4,6 +4,7 @@
 //   c50_scene <models-file>      models-file: model descriptions (harness/mjbuild.h format), each ending in "end"
 //
 // Line protocol (one line in, one line out):
+//   consts                                     constants of the headers used by the model
 //   poke <model> group <geom> <int>            m->geom_group[geom] = int                       -> ok
 //   poke <model> rgba <geom> <r> <g> <b> <a>   m->geom_rgba (decimal floats)                   -> ok
 //   poke <model> size <geom> <s0> <s1> <s2>    m->geom_size (decimal doubles)                  -> ok
@@ -132,6 +133,12 @@ int main(int argc, char** argv) {
     if (!n) { printf("bad-op\n"); continue; }
     errarmed = 1;
     if (setjmp(errjmp)) { printf("error %s\n", errmsg); errarmed = 0; continue; }
+    if (!strcmp(tok[0], "consts") && n == 1) {
+      printf("consts plane=%d sphere=%d capsule=%d cylinder=%d mesh=%d sdf=%d objgeom=%d static=%d dynamic=%d ngroup=%d planegrid=%d\n",
+             mjGEOM_PLANE, mjGEOM_SPHERE, mjGEOM_CAPSULE, mjGEOM_CYLINDER, mjGEOM_MESH, mjGEOM_SDF, mjOBJ_GEOM, mjCAT_STATIC,
+             mjCAT_DYNAMIC, mjNGROUP, mjMAXPLANEGRID);
+      errarmed = 0; continue;
+    }
     if (!strcmp(tok[0], "poke") || !strcmp(tok[0], "qpos") || !strcmp(tok[0], "step")) {
       if (n < 3 || !isint(tok[1])) { printf("bad-op\n"); continue; }
       int k = atoi(tok[1]);
@@ -250,6 +257,8 @@ int main(int argc, char** argv) {
     int intact = guard_intact(scn->geoms) && guard_intact(scn->geomorder);
     if (bar < 0) { printf("\n"); errarmed = 0; continue; }
     if (bad) { printf("input-mismatch %s\n", what); errarmed = 0; continue; }
+    { int hasmat = 0; for (int i = 0; i < m->ngeom; i++) if (m->geom_matid[i] >= 0) hasmat = 1;
+      if (hasmat) { printf("unsupported-material\n"); errarmed = 0; continue; } }
     printf("n=%d st=%d w=%d guard=%s |", scn->ngeom, scn->status, nwarn, intact ? "ok" : "OVERWRITTEN");
     int lim = scn->ngeom < scn->maxgeom ? scn->ngeom : scn->maxgeom;   // never read outside the allocation
     for (int i = 0; i < lim; i++) {
